@@ -35,18 +35,23 @@ AGREE_THEOREMS = {
 # source-agreement leaves (DESIGN 11.7): interpreting the dumped Python source = the model, for all inputs
 PYAGREE = {
     'C02': ['MiscFd'],
-    'C03': ['Pdu', 'MiscFc'],
-    'C05': ['Pdu'],
-    'C06': ['Pdu'],
+    'C03': ['Pdu', 'MiscFc', 'LayerRx'],
+    'C04': ['LayerTxHelpers', 'LayerTx'],
+    'C05': ['Pdu', 'LayerRx'],
+    'C06': ['Pdu', 'LayerRx'],
     'C07': ['MiscTimer'],
-    'C08': ['MiscTimer'],
-    'C09': ['AddressFns', 'AddressInit'],
+    'C08': ['MiscTimer', 'LayerTx'],
+    'C09': ['AddressFns', 'AddressInit', 'LayerSend'],
+    'C12': ['LayerTxHelpers', 'LayerQueues', 'Exec2Bridge', 'LayerSend'],
+    'C14': ['LayerQueues', 'Exec2Bridge'],
+    'C15': ['LayerTxHelpers'],
     'C16': ['AddressValidate', 'AddressInit'],
+    'C17': ['LayerTxHelpers', 'LayerTx'],
     'C19': ['SockOpts'],
     'C20': ['AddressFns', 'SockOpts'],
 }
 # leaves that are finished and committed
-PYAGREE_READY = {'SockOpts', 'AddressFns', 'AddressValidate', 'AddressInit', 'Pdu', 'MiscFd', 'MiscFc', 'MiscTimer'}
+PYAGREE_READY = {'LayerTxHelpers', 'LayerQueues', 'Exec2Bridge', 'SockOpts', 'AddressFns', 'AddressValidate', 'AddressInit', 'Pdu', 'MiscFd', 'MiscFc', 'MiscTimer'}
 
 
 def pyagree_theorems(mod):
